@@ -210,7 +210,7 @@ func normDiag(s string) string {
 	s = reQuoted.ReplaceAllString(s, `"…"`)
 	s = reDigits.ReplaceAllString(s, "N")
 	if len(s) > 140 {
-		s = s[:140]
+		s = strings.ToValidUTF8(s[:140], "") // never cut a character in two: keys must survive a JSON round trip
 	}
 	return strings.TrimSpace(s)
 }
